@@ -69,6 +69,9 @@ func dispatch(what, tier string, seed uint64, replay string) int {
 		return 0
 	}
 	a := buildArtefacts()
+	if what == "gen-test" {
+		return genTest(a, 400, seed)
+	}
 	switch what {
 	case "C19", "C12":
 		lc := c19Check()
